@@ -279,6 +279,26 @@ func VerifCheck_entry() {
 			verifAssert("Split-piece-count", len(parts) == len(seq)*(1+ng)+1)
 		}
 	}
+	// pattern-form Replace right after a bool-only call on the same Regexp (the pooled interpreter state was last
+	// used with the capture-free program): it sees the same first match and the same captures
+	// (valid UTF-8 subjects only: Replace re-encodes the text it keeps, so an invalid byte comes back as U+FFFD)
+	if nums := re.GetGroupNumbers(); len(nums) > 1 && verifParam("mode") != "b" {
+		if _, err := re.MatchString(s); err != nil {
+			verifFail("error", err.Error())
+		}
+		got, err := re.Replace(s, "[$"+strconv.Itoa(nums[1])+"]", -1, 1)
+		if err != nil {
+			verifFail("error-replace", err.Error())
+		}
+		want := s
+		if ms != nil {
+			bi, bl := ms.ByteRange()
+			want = s[:bi] + "[" + ms.GroupByNumber(nums[1]).String() + "]" + s[bi+bl:]
+		}
+		verifNote(got)
+		verifNote(want)
+		verifAssert("Replace-after-bool==first-match-captures", got == want)
+	}
 	verifReach("end")
 }
 
